@@ -592,4 +592,18 @@ def encodeEvents (bnd : Bytes) : State → List Event → Except String Bytes
       | .error e => .error e
       | .ok rest => .ok (out ++ rest)
 
+/-- the Field / File event of a part -/
+def partHeadEvent (p : Part) : Event :=
+  match p.filename with
+  | some f => .file p.name f p.headers
+  | none => .field p.name p.headers
+
+/-- the events `stream_encode_multipart` sends for one part: a Field/File event and one Data event -/
+def partEvents (p : Part) : List Event := [partHeadEvent p, .data p.payload false]
+
+/-- `Preamble(b"")`, the parts, `Epilogue(b"")` through a fresh encoder (what
+`stream_encode_multipart` / `encode_multipart` do) -/
+def encodeAll (bnd : Bytes) (parts : List Part) : Except String Bytes :=
+  encodeEvents bnd .preamble (.preamble [] :: (parts.flatMap partEvents ++ [.epilogue []]))
+
 end Wz.Multipart
